@@ -577,6 +577,7 @@ let uoperand_of_string s =
   let sym c = match c with
     | 'q' -> Usage.YQubit | 'a' -> Usage.YQubitArr | 'c' -> Usage.YClassical false | 'k' -> Usage.YClassical true
     | 'u' -> Usage.YUndef | 'g' -> Usage.YGate (N0, n_of_int 1) | 'd' -> Usage.YDef N0
+    | 'h' -> Usage.YHwQubit
     | _ -> raise (Parse ("operand " ^ s)) in
   if s = "hw" then Usage.OHw
   else if String.length s = 2 && s.[0] = 'i' then Usage.OIdent (sym s.[1])
